@@ -35,6 +35,13 @@ def cases(draw, tier, det):
             # own frame shortened in place - or on the same buffer refilled with other values
             "second": draw(st.sampled_from([None, "shrink_inplace", "predict_shorter", "refill", None])),
             "n2_pick": draw(st.integers(0, 1000)), "drop": draw(st.sampled_from(["tail", "head"]))}
+    # CAPA / MVCAPA: a maximum length right at the length of the series (n - 1, n, n + 1), and data far from the zero baseline
+    # (a whole-series anomaly is then optimal)
+    if det in ("CAPA", "MVCAPA"):
+        at_n = draw(st.sampled_from([None, None, None, -1, 0, 1]))
+        if at_n is not None and n + at_n >= params["min_segment_length"]:
+            params["max_segment_length"] = n + at_n
+        case["level"] = draw(st.sampled_from([0.0, 0.0, 0.0, 5.0, -40.0]))
     if case["second"] == "shrink_inplace":
         case["container"] = "DataFrame"
         if case["index"]["kind"] in D.REPEAT_INDEX_KINDS:  # rows are dropped by label: labels must be unique
@@ -43,6 +50,8 @@ def cases(draw, tier, det):
         case["X"] = draw(D.any_matrix(n, p))
     else:
         case["X"], _ = draw(D.structured_matrix(n, p, boundary_positions=(0, 1, bw - 1, bw, n - bw, n - 1)))
+    if case.get("level"):
+        case["X"] = [[v + case["level"] for v in row] for row in case["X"]]
     if case["second"] == "refill":
         case["X2"] = draw(D.any_matrix(n, p))
     case["n_min"] = n_min
